@@ -476,6 +476,12 @@ func (a *Act) staticCall0(res ssa.Value, instr ssa.Instruction, fn *ssa.Function
 		a.havocCall(res, instr, st, reach, "declared pure "+name, true)
 		return
 	}
+	if hasLoops(fn) && g.topCt != nil && g.topCt.UnrollAll > 0 && eng.inRepo(fn) && eng.contractFor(fn) == nil && a.depth < g.maxDepth && !a.onStack(fn) && eng.ssaSize(fn) <= eng.inlineLimit {
+		// the function under verification is checked with its loops unrolled ("unroll n"): a small uncontracted helper it
+		// calls (e.g. one a loop was extracted into) is executed in place in the same way, unwinding obligation included
+		a.inlineN(res, instr, fn, args, nil, st, reach, g.topCt.UnrollAll)
+		return
+	}
 	if hasLoops(fn) {
 		if eng.inRepo(fn) {
 			// default contract of an uncontracted function with loops: it may modify the object its pointer receiver points
@@ -1113,6 +1119,11 @@ func (a *Act) goStmt(in *ssa.Go, st *State, reach string) {
 	st.H["I"] = g.def("HI", heapSort["I"], sto(st.H["I"], ghostSpawnRef, "0", fmt.Sprintf("(+ %s 1)", cur)))
 	if a.g.eng.goHook != nil {
 		a.g.eng.goHook(a, in, st, reach)
+	}
+	if (a.top || a.letsAtEntry) && a.ct != nil && len(a.ct.Cuts) > 0 {
+		// cuts anchored on "a goroutine is started" rather than on the text of the go statement:  after `go:` ...
+		// (they fire at the first go statement executed; a contract with such cuts is about functions that have one)
+		a.fireNamedCuts([]string{"go:"}, in, st, reach)
 	}
 }
 
